@@ -32,7 +32,7 @@ REQUIRED = {"discipline.only_parser_error": {"quick": 40000, "thorough": 3000000
             "fault.reported_at_injected_line": {"quick": 1500, "thorough": 100000},
             "mutation.only_parser_error": {"quick": 8000, "thorough": 500000},
             "reuse.parse_after_failure_same_as_fresh": {"quick": 200, "thorough": 15000}}
-REQUIRED_SEEN = {"faulty_document_form": ["lf", "crlf", "cr", "file_bom", "file_bom_language_comment", "file_cr", "file_bom_blank_first"], "free_text_shape": ["keyword_lookalike_without_colon"], "fault_kind": ["second_feature", "text_after_steps", "examples_outside_outline", "and_without_predecessor",
+REQUIRED_SEEN = {"file_list_shape": ["no_feature_file_before_a_feature"], "faulty_document_form": ["lf", "crlf", "cr", "file_bom", "file_bom_language_comment", "file_cr", "file_bom_blank_first"], "free_text_shape": ["keyword_lookalike_without_colon"], "fault_kind": ["second_feature", "text_after_steps", "examples_outside_outline", "and_without_predecessor",
                                 "but_without_predecessor", "ragged_table_row", "malformed_tag", "second_background",
                                 "docstring_before_step", "table_before_step", "background_after_scenario", "tags_entry_malformed_tag",
                                 "tags_entry_tag_expected"],
@@ -417,6 +417,40 @@ def dump_feature(f):
             [item(x) for x in f.run_items])
 
 
+def file_lists(mon, P, rng, n, i18n):
+    """The file-list entry point (behave.runner_util.parse_features, what `behave features/` uses): files that hold no feature
+    at all (empty, comments only, a language line only) are legal -- they yield no feature and disturb nobody."""
+    import shutil
+    from behave import runner_util
+    for i in range(n):
+        root = tempfile.mkdtemp(prefix="bvm-c05-files-")
+        try:
+            kws = i18n.languages["en"]
+            names, nreal = [], 0
+            for j in range(rng.randint(2, 4)):
+                path = os.path.join(root, "f%d.feature" % j)
+                if rng.random() < 0.45:
+                    body = rng.choice(["", "\n\n", "# only a comment\n", "# language: de\n", "# language: en\n\n# nothing yet\n", "   \n\t\n"])
+                    kind = "no_feature"
+                else:
+                    body = render_feature(DocGen(rng, "en", kws).feature(), rng, layout=False)[0]
+                    kind = "feature"
+                    nreal += 1
+                with open(path, "w", encoding="utf-8") as fh:
+                    fh.write(body)
+                names.append((path, kind))
+            shape = "".join("n" if k == "no_feature" else "F" for _p, k in names)
+            k_, v_ = call(runner_util.parse_features, [p_ for p_, _k in names])
+            mon.case(("file-list", shape, i), True)
+            mon.check("discipline.only_parser_error", k_ != "other",
+                      lambda: dict(entry="runner_util.parse_features", files=shape, exception=repr(v_), where=where_of(v_) if k_ == "other" else None))
+            if k_ == "ok":
+                mon.check("filelist.one_feature_per_file_that_has_one", len(v_) == nreal, lambda: dict(files=shape, features=len(v_), want=nreal))
+            mon.seen("file_list_shape", "no_feature_file_before_a_feature" if "nF" in shape else "other")
+        finally:
+            shutil.rmtree(root, ignore_errors=True)
+
+
 def parser_reuse(mon, P, rng, n, i18n):
     """Histories on ONE Parser object (as context.execute_steps does with feature.parser): a parse that failed
     must not influence the next parse."""
@@ -508,6 +542,7 @@ def run(spec, mon):
     mutations(mon, P, rng, 3 if tier == "quick" else 150, i18n)
     fault_injection(mon, P, rng, 12 if tier == "quick" else 700, i18n)
     parser_reuse(mon, P, rng, 20 if tier == "quick" else 1500, i18n)
+    file_lists(mon, P, rng, 12 if tier == "quick" else 400, i18n)
     if spec["shard"] == 0:
         mon.sample({"soup": "@a b\n| 1 |\nScenario:\n  And x\n", "entry_point": "steps"})
         mon.sample({"fault": "second_feature", "text": "Feature: f\n  Scenario: s\n    Given x\nFeature: again\n", "expected_error_line": 4})
